@@ -88,10 +88,12 @@ def random_path(rng, bbox, nverts):
     return [[x0, y0], [x1, y1]] if (x1 - x0) == (y1 - y0) else [[x0, y0], [x1, y0]]
 
 
-def make_world(conv, rng):
+def make_world(conv, rng, gapped=False):
     if conv == "ugrid":
         w = GW.mesh_world(W.mesh_from_squares([["Q", "Q", "N"], ["Q", "Q", "Q"], ["N", "Q", "Q"]], shape="rect"),
                           enc={"base": 0, "fill": "intfill"})
+    elif conv == "cf1d" and gapped:
+        w = GW.structured_world(conv, 3, 4, bounds=True, gap=6)      # cells that stop one lattice unit short of their neighbours
     elif conv == "cf1d":
         w = GW.structured_world(conv, 3, 4, bounds=True)
     else:
@@ -109,8 +111,8 @@ def cases(tier: str, seed: int) -> list[dict]:
     rng = random.Random(seed + 18)
     out = []
     for conv in W.ALL_CONVS:
-        for rep in range(1 if tier == "quick" else 3):
-            w = make_world(conv, rng)
+        for rep in range((2 if conv == "cf1d" else 1) if tier == "quick" else 3):
+            w = make_world(conv, rng, gapped=(conv == "cf1d" and rep == 1))
             if rep == 0 and conv in HIGH_LATITUDE:
                 # the same model at 60 degrees south (a degree of longitude is half a degree of latitude in metres):
                 # a multiple of 24 quanta, so the path lattice stays aligned with the cells
